@@ -895,6 +895,121 @@ func c14FailingWatcher(c *Ctx) {
 	}
 }
 
+// the cache key is injective on tuples whose fields contain no '$' (F21 is about fields that
+// contain the separator): every pair of different tuples of 1..3 fields over a universe of digit
+// laden, prefix-shifted and empty strings gets different keys from casbin.GetCacheKey, and a
+// decision cached for one tuple is not served for another (through the real wrappers, for the
+// pairs whose concatenations coincide).
+func c14KeyInjective(c *Ctx) {
+	u := []string{"", "1", "3", "4", "11", "13", "113", "a", "1a", "a1", "xyz", "3xyz", "read", "4read", "abcdefghi", "13abcdefghi", "abcdefghi3xyz", "1abcdefghi", "9abcdefghi", "alice", "alic", "e", "data1", "data", "1read"}
+	seen := map[string][]string{}
+	n := 0
+	var rec func(cur []string)
+	rec = func(cur []string) {
+		if len(cur) > 0 {
+			k, ok := casbin.GetCacheKey(toIface(cur)...)
+			n++
+			if ok {
+				if prev, dup := seen[k]; dup && strings.Join(prev, "\x00") != strings.Join(cur, "\x00") {
+					c.Direct("c14.key-injective", fmt.Sprintf("two different request tuples without '$' get the same cache key %q", k), fmt.Sprintf("%q and %q", prev, cur))
+					return
+				}
+				seen[k] = append([]string(nil), cur...)
+			}
+		}
+		if len(cur) == 3 {
+			return
+		}
+		for _, x := range u {
+			rec(append(cur, x))
+		}
+	}
+	rec(nil)
+	c.Count(fmt.Sprintf("key-injectivity-tuples=%d", n))
+	// and through the wrappers: tuples with equal concatenation do not share a decision
+	pairs := [][2][]string{{{"1", "abcdefghi3xyz", "read"}, {"13abcdefghi", "xyz", "read"}}, {{"alice", "data1", "read"}, {"alic", "edata1", "read"}}, {{"a", "1a", "x"}, {"a1", "a", "x"}}, {{"11", "3", "read"}, {"1", "13", "read"}}}
+	for _, synced := range []bool{false, true} {
+		for pi, pr := range pairs {
+			for _, first := range []int{0, 1} {
+				w, under, _ := c14NewModel(false, synced)
+				_, _ = w.AddPolicy(toIface(pr[first])...)
+				_, _ = w.InvalidateCache(), 0
+				a, _ := w.Enforce(toIface(pr[first])...)
+				b, _ := w.Enforce(toIface(pr[1-first])...)
+				rb, _ := under(toIface(pr[1-first])...)
+				if b != rb {
+					c.Direct(fmt.Sprintf("c14.key-share.%v.%d.%d", synced, pi, first), fmt.Sprintf("Enforce%q = %v was cached; Enforce%q then answered %v while the embedded enforcer answers %v", pr[first], a, pr[1-first], b, rb), "")
+				}
+			}
+		}
+	}
+}
+
+// expiry under concurrent use: while other goroutines keep asking other requests (and so keep
+// using the cache), a decision whose lifetime is over is not served any more -- 2001 questions
+// after the lifetime, all answered like the embedded enforcer.
+func c14ExpiryUnderLoad(c *Ctx) {
+	for _, synced := range []bool{false, true} {
+		if !synced {
+			continue // the plain wrapper is documented as not safe for concurrent use
+		}
+		w, under, rec := c14NewModel(false, synced)
+		w.SetExpireTime(200 * time.Millisecond)
+		req := []interface{}{"carol", "data1", "read"}
+		_, _ = w.Enforce(req...) // false, cached
+		// the policy changes through the embedded enforcer, which the wrapper cannot see: only
+		// the lifetime bounds how long the cached false is served
+		if sw, ok := w.(*casbin.SyncedCachedEnforcer); ok {
+			_, _ = sw.SyncedEnforcer.AddPolicy("carol", "data1", "read")
+		}
+		stop := make(chan struct{})
+		var wg sync.WaitGroup
+		for g := 0; g < 8; g++ {
+			wg.Add(1)
+			go func(g int) {
+				defer wg.Done()
+				for i := 0; ; i++ {
+					select {
+					case <-stop:
+						return
+					default:
+					}
+					_, _ = w.Enforce(fmt.Sprintf("u%d", g), fmt.Sprintf("o%d", i%7), "read")
+				}
+			}(g)
+		}
+		time.Sleep(500 * time.Millisecond)
+		stale := 0
+		// one more user of the cache that is inside a read section (as SyncCache.Get is) for
+		// 100 ms at the moment the expired decision is asked for
+		if sc, ok := rec.inner.(*cache.SyncCache); ok {
+			sc.RLock()
+			go func() {
+				time.Sleep(100 * time.Millisecond)
+				sc.RUnlock()
+			}()
+			got, _ := w.Enforce(req...)
+			want, _ := under(req...)
+			if got != want {
+				stale++
+			}
+		}
+		for i := 0; i < 2000; i++ {
+			got, _ := w.Enforce(req...)
+			want, _ := under(req...)
+			if got != want {
+				stale++
+			}
+		}
+		close(stop)
+		wg.Wait()
+		if stale != 0 {
+			c.Direct(fmt.Sprintf("c14.expiry-under-load.%v", synced), fmt.Sprintf("lifetime 200 ms, other goroutines using the cache: 300 ms after the lifetime was over %d of 2001 answers were still the expired decision", stale), "")
+		}
+		c.Count("expiry-under-load")
+	}
+}
+
 // c14LifetimeUnderPolling: a lifetime runs from the moment a decision was STORED.  A cached
 // (now stale) decision that is asked for again and again at intervals much shorter than the
 // lifetime must still give way to the fresh decision once the lifetime is over.  Real time,
@@ -1180,6 +1295,8 @@ func init() {
 			"Histories in which two different tuples have one cache key (F21 and its variants for the context text) are kept out. Non-trivial = some cacheable request is enforced at least twice (a potential cache hit); distinct by case id.", exLen, nRandom, maxLen, nTimed, nCx)
 		c14LifetimeUnderPolling(c)
 		c14FailingWatcher(c)
+		c14KeyInjective(c)
+		c14ExpiryUnderLoad(c)
 		var cases []*c14Case
 		cases = append(cases, c14Witnesses()...)
 		cases = append(cases, c14Exhaustive(exLen)...)
